@@ -48,7 +48,8 @@ def common_scenario(rnd, sid):
         d = {"name": "PU%d" % len(s["links"]), "type": "headpump", "a": "RP", "b": rnd.choice(js), "init": 1}
         d.update(fam)
         s["links"].append(d)
-    s["ctl"] = [c for c in s["ctl"] if c["thr"] % s["H"] == 0][:2]      # control instants on the report grid
+    # control instants on the report grid; the INP file has no place for the priority of a simple control
+    s["ctl"] = [dict(c, prio=3) for c in s["ctl"] if c["thr"] % s["H"] == 0][:2]
     if rnd.random() < 0.5:        # a throttle control valve between two junctions whose setting is changed during the run
         js = [n["name"] for n in s["nodes"] if n["type"] == "J"]
         a, b = rnd.sample(js, 2)
